@@ -225,7 +225,7 @@ def shrink_manager_history(exe, h, key):
 
 def manager_histories(ctx, exe, thorough):
     fails = {}
-    stats = {"n": 0, "ops": 0, "sorted_then_unsorted": 0, "info_outside_then_lookup": 0}
+    stats = {"n": 0, "ops": 0, "sorted_then_unsorted": 0, "info_outside_then_lookup": 0, "repeats": 0}
 
     def registry(draw, db, shape):
         total = len(NAMES[db])
@@ -252,6 +252,10 @@ def manager_histories(ctx, exe, thorough):
         nops = draw(st.integers(6, 30))
         outside_created = set()
         for _ in range(nops):
+            if ops and draw(st.integers(0, 5)) == 0:
+                ops.append(ops[-1])          # the same lookup again, immediately
+                stats["repeats"] += 1
+                continue
             k = draw(st.integers(0, len(regs) - 1))
             zs = regs[k]["zones"]
             kind = draw(st.sampled_from(["name", "name", "id", "id", "index", "info"]))
